@@ -224,7 +224,7 @@ pub fn rewrites<T: Fam>(doc: &str) -> Vec<Rewrite> {
                 }
             }
         }
-        char_refs(doc, t.span.start, t.span.end, &mut push);
+        char_refs(doc, t.span.start, t.span.end, true, &mut push);
     }
     // attribute-level rewrites
     for t in &sh.toks {
@@ -244,7 +244,7 @@ pub fn rewrites<T: Fam>(doc: &str) -> Vec<Rewrite> {
             let key = &s[a..eq];
             let is_ns_decl = key.windows(5).any(|w| w == b"xmlns");
             if !looks_primitive && !is_ns_decl {
-                char_refs(doc, vs + 1, b - 1, &mut push);
+                char_refs(doc, vs + 1, b - 1, false, &mut push);
             }
             // R7: quote kind and blanks around `=`
             let q = s[vs];
@@ -332,7 +332,7 @@ pub fn rewrites<T: Fam>(doc: &str) -> Vec<Rewrite> {
 }
 
 /// R4: every non-blank character (outside references) of doc[a..b] replaced by a decimal / hex reference.
-fn char_refs(doc: &str, a: usize, b: usize, push: &mut impl FnMut(&'static str, usize, Option<String>)) {
+fn char_refs(doc: &str, a: usize, b: usize, custom: bool, push: &mut impl FnMut(&'static str, usize, Option<String>)) {
     if a >= b || !doc.is_char_boundary(a) || !doc.is_char_boundary(b) {
         return;
     }
@@ -358,7 +358,44 @@ fn char_refs(doc: &str, a: usize, b: usize, push: &mut impl FnMut(&'static str, 
         }
         push("char -> decimal reference", p, splice(s, p, c.len_utf8(), format!("&#{};", c as u32).as_bytes()));
         push("char -> hex reference", p, splice(s, p, c.len_utf8(), format!("&#x{:X};", c as u32).as_bytes()));
+        if custom && c == 'a' {
+            // read through the entry points that take an entity resolver (see `de_with_resolver`)
+            push("char -> custom entity &qx; (resolver entry points)", p, splice(s, p, 1, b"&qx;"));
+        }
     }
+}
+
+/// The resolver of the custom-entity rewrite: `qx` is the letter a; everything else as predefined.
+struct QxResolver;
+impl quick_xml::de::EntityResolver for QxResolver {
+    type Error = std::convert::Infallible;
+    fn capture(&mut self, _doctype: quick_xml::events::BytesText) -> Result<(), Self::Error> {
+        Ok(())
+    }
+    fn resolve(&self, entity: &str) -> Option<&str> {
+        match entity {
+            "qx" => Some("a"),
+            other => quick_xml::escape::resolve_predefined_entity(other),
+        }
+    }
+}
+
+/// Both resolver-taking entry points (borrowing and reader-based) must give the value.
+fn de_with_resolver<T: Fam>(doc: &str) -> Result<T, String> {
+    let a = guarded(|| {
+        let mut d = quick_xml::de::Deserializer::from_str_with_resolver(doc, QxResolver);
+        T::deserialize(&mut d).map_err(|e| format!("{:?}", e))
+    })
+    .map_err(|p| format!("panic in deserializer: {}", p))??;
+    let b = guarded(|| {
+        let mut d = quick_xml::de::Deserializer::with_resolver(doc.as_bytes(), QxResolver);
+        T::deserialize(&mut d).map_err(|e| format!("{:?}", e))
+    })
+    .map_err(|p| format!("panic in deserializer: {}", p))??;
+    if a != b {
+        return Err(format!("from_str_with_resolver gives {:?}, with_resolver (reader) gives {:?}", a, b));
+    }
+    Ok(a)
 }
 
 /// `key` occurs in the tag content as an attribute key (followed by optional blanks and `=`)
@@ -415,13 +452,15 @@ fn sweep<T: Fam>(ctx: &Ctx, ln: u32, level: usize, pair_limit: usize, triple_lim
             acc.traces += 1;
             acc.transitions += 1;
             // both entry points: the borrowing one and the reader-based one (owned events, own constructor)
-            let first = match de::<T>(doc) {
+            let first = if doc.contains("&qx;") {
+                de_with_resolver::<T>(doc)
+            } else { match de::<T>(doc) {
                 Ok(b) if b == *v => match crate::props::c06::de_reader::<T>(doc) {
                     Ok(b2) if b2 == *v => Ok(b2),
                     other => other.and_then(|x| Err(format!("from_reader gives {:?}", x))),
                 },
                 other => other,
-            };
+            } };
             match first {
                 Ok(b) if b == *v => acc.nt_count += 1,
                 other => {
@@ -464,7 +503,7 @@ pub fn run(ctx: &Ctx) {
          round-trips, plus, for the type with optional elements, hand-written presentations of absent fields as xsi:nil elements. Rewrites, each applied at EVERY applicable site: comment / PI inserted at every position outside tags and outside \
          references (also inside text); blank / newline+tab between markup inside element-only content; text -> CDATA, -> two CDATA \
          sections at every split point, -> text + CDATA; every non-blank character of text and attribute values -> decimal / hex \
-         reference; <x/> <-> <x></x>; every permutation of up to 3 attributes; quote kind swapped where the value allows; blanks, tab and CRLF around \
+         reference; every letter a of a text -> the custom entity &qx; (such documents are read through Deserializer::from_str_with_resolver and with_resolver); <x/> <-> <x></x>; every permutation of up to 3 attributes; quote kind swapped where the value allows; blanks, tab and CRLF around \
          `=`, newline+tab between attributes; XML declaration, DOCTYPE, leading and trailing comment; unknown attribute (first / last) on every tag and unknown child \
          (4 shapes) as first / last child of the root, for types that ignore unknown fields. All single rewrites, and all ordered pairs \
          (second rewrite computed on the rewritten document) for base documents up to the pair limit; thorough: also all ordered triples for base documents up to 48 bytes. Oracle: from_str(rewritten) == \
